@@ -856,15 +856,8 @@ func unop(instr *ssa.UnOp, x value) value {
 		return symUnop(instr.Op, sx)
 	}
 	switch instr.Op {
-	case token.ARROW: // receive
-		v, ok := x.(*mchan).recv()
-		if !ok {
-			v = zero(instr.X.Type().Underlying().(*types.Chan).Elem())
-		}
-		if instr.CommaOk {
-			v = tuple{v, ok}
-		}
-		return v
+	case token.ARROW: // receive: handled by the caller (needs the scheduler)
+		panic("unop: channel receive must go through chanRecv")
 	case token.SUB:
 		switch x := x.(type) {
 		case int:
